@@ -2897,6 +2897,8 @@ struct LedgerClient {
     settings_acked: bool,
     closed: Option<String>,
     out: Vec<u8>,
+    /// response DATA by stream
+    bodies: BTreeMap<u32, Vec<u8>>,
 }
 
 impl LedgerClient {
@@ -2970,6 +2972,7 @@ impl LedgerClient {
                     }
                 }
                 0 => {
+                    self.bodies.entry(sid).or_default().extend_from_slice(&pl);
                     if fl & 1 != 0 {
                         self.ended.insert(sid);
                     }
@@ -3098,6 +3101,7 @@ fn case_front_rxledger(ctx: &mut Ctx, tls: &mut TlsCtx, name: &str, steps: &[RxS
         st, rx: vec![], pos: 0, enc: loona_hpack::Encoder::new(), dec: loona_hpack::Decoder::new(), peer_init: 65535, conn_avail: 65535,
         stream_avail: BTreeMap::new(), conn_credit: 0, sent_total: 0, data_started: false, full_window: 65535, rst: BTreeMap::new(),
         status: BTreeMap::new(), ended: Default::default(), goaway: None, settings_seen: false, settings_acked: false, closed: None, out: vec![],
+        bodies: BTreeMap::new(),
     };
     let mut hello = b"PRI * HTTP/2.0\r\n\r\nSM\r\n\r\n".to_vec();
     hello.extend_from_slice(&settings_frame(&[(4, 1 << 20)]));
@@ -3256,6 +3260,365 @@ fn case_front_rxledger(ctx: &mut Ctx, tls: &mut TlsCtx, name: &str, steps: &[RxS
     case
 }
 
+// ------------------------------------ backend stream limit (C14 / C02 / C01) --
+//
+// A TLS HTTP/2 client with k concurrent streams -> sozu -> an h2c backend that advertises
+// SETTINGS_MAX_CONCURRENT_STREAMS = N and holds its first N answers for a while. sozu must
+// never have more than N streams open on one backend connection, and must still serve every
+// request (second connection to the same healthy backend), bodies intact.
+
+#[derive(Default)]
+struct LimitShared {
+    /// requests completely received, over all connections (decides who is held)
+    arrivals: usize,
+    connections: usize,
+    max_open: usize,
+    violations: Vec<String>,
+    /// request bodies by request index (from the path)
+    bodies: BTreeMap<usize, Vec<u8>>,
+    rst: Vec<(usize, u32, u32)>,
+    errors: Vec<String>,
+    /// streams sozu opened before it acknowledged the backend's SETTINGS (not bound by N yet)
+    opened_before_ack: usize,
+}
+
+fn bsl_req_body(idx: usize, len: usize) -> Vec<u8> {
+    pattern(40 + idx, len)
+}
+
+fn bsl_resp_body(idx: usize) -> Vec<u8> {
+    pattern(90 + idx, 150 + 7 * (idx % 13))
+}
+
+fn serve_limit_conn(mut c: RawConn, conn_no: usize, n: u32, hold: Duration, shared: std::sync::Arc<std::sync::Mutex<LimitShared>>, stop: std::sync::Arc<std::sync::atomic::AtomicBool>) {
+    let mut pos = 0usize;
+    let mut preface = false;
+    // RFC 9113 6.5.3: our SETTINGS bind sozu from its ACK on; streams it opened before (the limit
+    // is "unlimited" until then) still count as open afterwards
+    let mut acked = false;
+    let mut open: std::collections::BTreeSet<u32> = Default::default();
+    let mut idx_of: BTreeMap<u32, usize> = BTreeMap::new();
+    let mut body_of: BTreeMap<u32, Vec<u8>> = BTreeMap::new();
+    let mut block: Option<(u32, Vec<u8>, bool)> = None; // header block being collected (sid, bytes, end_stream)
+    let mut pending: Vec<(u32, Instant)> = vec![];
+    let mut enc = loona_hpack::Encoder::new();
+    let mut dec = loona_hpack::Decoder::new();
+    let note = |s: &std::sync::Arc<std::sync::Mutex<LimitShared>>, f: &mut dyn FnMut(&mut LimitShared)| {
+        if let Ok(mut g) = s.lock() {
+            f(&mut g)
+        }
+    };
+    while !stop.load(std::sync::atomic::Ordering::Relaxed) {
+        // parse
+        loop {
+            if !preface {
+                if c.received.len() - pos < 24 {
+                    break;
+                }
+                if &c.received[pos..pos + 24] != b"PRI * HTTP/2.0\r\n\r\nSM\r\n\r\n" {
+                    note(&shared, &mut |g| g.errors.push(format!("connection {conn_no}: bad preface")));
+                    return;
+                }
+                pos += 24;
+                preface = true;
+                let mut first = settings_frame(&[(3, n), (4, 1 << 20)]);
+                first.extend_from_slice(&frame(8, 0, 0, &(1u32 << 24).to_be_bytes()));
+                if c.write_all(&first, T).is_err() {
+                    return;
+                }
+                continue;
+            }
+            if c.received.len() - pos < 9 {
+                break;
+            }
+            let h = &c.received[pos..pos + 9];
+            let len = ((h[0] as usize) << 16) | ((h[1] as usize) << 8) | h[2] as usize;
+            let (ty, fl) = (h[3], h[4]);
+            let sid = u32::from_be_bytes([h[5], h[6], h[7], h[8]]) & 0x7fff_ffff;
+            if c.received.len() - pos - 9 < len {
+                break;
+            }
+            let pl = c.received[pos + 9..pos + 9 + len].to_vec();
+            pos += 9 + len;
+            let mut complete: Option<u32> = None;
+            match ty {
+                4 if fl & 1 == 0 => {
+                    let _ = c.write_all(&frame(4, 1, 0, &[]), T);
+                }
+                4 => acked = true,
+                6 if fl & 1 == 0 => {
+                    let _ = c.write_all(&frame(6, 1, 0, &pl), T);
+                }
+                1 | 9 => {
+                    if ty == 1 {
+                        open.insert(sid);
+                        let now_open = open.len();
+                        note(&shared, &mut |g| {
+                            if acked {
+                                g.max_open = g.max_open.max(now_open);
+                            } else {
+                                g.opened_before_ack += 1;
+                            }
+                            if acked && now_open > n as usize {
+                                g.violations.push(format!("connection {conn_no}: HEADERS of stream {sid} makes {now_open} concurrently open streams, SETTINGS_MAX_CONCURRENT_STREAMS is {n}"));
+                            }
+                        });
+                        // priority fields are not sent by sozu; padding neither
+                        block = Some((sid, pl.clone(), fl & 1 != 0));
+                    } else if let Some(b) = block.as_mut() {
+                        b.1.extend_from_slice(&pl);
+                    }
+                    if fl & 4 != 0 {
+                        if let Some((bsid, bytes, es)) = block.take() {
+                            match dec.decode(&bytes) {
+                                Ok(list) => {
+                                    let path = list.iter().find(|(k, _)| k == b":path").map(|(_, v)| String::from_utf8_lossy(v).into_owned()).unwrap_or_default();
+                                    let idx = path.rsplit("/r").next().and_then(|t| t.parse::<usize>().ok()).unwrap_or(usize::MAX);
+                                    idx_of.insert(bsid, idx);
+                                }
+                                Err(e) => note(&shared, &mut |g| g.errors.push(format!("connection {conn_no}: header block of stream {bsid} does not decode: {e:?}"))),
+                            }
+                            if es {
+                                complete = Some(bsid);
+                            }
+                        }
+                    }
+                }
+                0 => {
+                    body_of.entry(sid).or_default().extend_from_slice(&pl);
+                    if fl & 1 != 0 {
+                        complete = Some(sid);
+                    }
+                }
+                3 if pl.len() == 4 => {
+                    open.remove(&sid);
+                    pending.retain(|p| p.0 != sid);
+                    let code = u32::from_be_bytes([pl[0], pl[1], pl[2], pl[3]]);
+                    note(&shared, &mut |g| g.rst.push((conn_no, sid, code)));
+                }
+                7 => return,
+                _ => {}
+            }
+            if let Some(s) = complete {
+                let idx = idx_of.get(&s).copied().unwrap_or(usize::MAX);
+                let body = body_of.remove(&s).unwrap_or_default();
+                let mut held = false;
+                note(&shared, &mut |g| {
+                    held = g.arrivals < n as usize;
+                    g.arrivals += 1;
+                    g.bodies.insert(idx, body.clone());
+                });
+                pending.push((s, Instant::now() + if held { hold } else { Duration::ZERO }));
+            }
+        }
+        // answer what is due
+        let now = Instant::now();
+        let due: Vec<u32> = pending.iter().filter(|p| p.1 <= now).map(|p| p.0).collect();
+        pending.retain(|p| p.1 > now);
+        for s in due {
+            let idx = idx_of.get(&s).copied().unwrap_or(0);
+            let rb = bsl_resp_body(idx);
+            let cl = rb.len().to_string();
+            let tag = idx.to_string();
+            let hs: Vec<(&[u8], &[u8])> = vec![(b":status", b"200"), (b"content-length", cl.as_bytes()), (b"x-req", tag.as_bytes())];
+            let blk = enc.encode(hs);
+            let mut out = frame(1, 4, s, &blk);
+            out.extend_from_slice(&frame(0, 1, s, &rb));
+            open.remove(&s);
+            if c.write_all(&out, T).is_err() {
+                return;
+            }
+        }
+        match c.read_some(Duration::from_millis(10)) {
+            ReadEnd::Done | ReadEnd::Timeout => {}
+            ReadEnd::Closed | ReadEnd::Reset => return,
+        }
+    }
+}
+
+fn backend_stream_limit_scenarios(front_limit_hint: usize) -> Vec<(u32, usize)> {
+    let mut v = vec![];
+    for n in [1u32, 2, 3, 100] {
+        for k in [n as usize - 1, n as usize, n as usize + 1, 2 * n as usize + 1] {
+            // the client itself honours sozu's own SETTINGS_MAX_CONCURRENT_STREAMS
+            if k >= 1 && k <= front_limit_hint && !v.contains(&(n, k)) {
+                v.push((n, k));
+            }
+        }
+    }
+    v
+}
+
+fn case_backend_stream_limit(ctx: &mut Ctx, tls: &mut TlsCtx, n: u32, k: usize, fails: &mut Vec<Fail>, dist: &mut BTreeMap<String, u64>) -> String {
+    use std::io::Write;
+    let (path, _cid, be) = route_tls(ctx, tls, "m", true);
+    let hold = Duration::from_millis(if n >= 100 { 250 } else { 350 });
+    let req_len = if n >= 100 { 300 } else { 3000 };
+    let case = format!("backend-stream-limit path={path} backend MAX_CONCURRENT_STREAMS={n} client streams={k} (first {} held {:?}) req_body={req_len}+idx", (n as usize).min(k), hold);
+    *dist.entry(format!("backend-stream-limit:n{n}")).or_insert(0) += 1;
+    let stop = std::sync::Arc::new(std::sync::atomic::AtomicBool::new(false));
+    let shared = std::sync::Arc::new(std::sync::Mutex::new(LimitShared::default()));
+    let (stop_b, shared_b) = (stop.clone(), shared.clone());
+    let bt = std::thread::spawn(move || {
+        let mut handlers = vec![];
+        while !stop_b.load(std::sync::atomic::Ordering::Relaxed) {
+            if let Ok(c) = be.accept(Duration::from_millis(20)) {
+                let no = {
+                    let mut g = shared_b.lock().unwrap_or_else(|e| e.into_inner());
+                    g.connections += 1;
+                    g.connections
+                };
+                let (s2, st2) = (shared_b.clone(), stop_b.clone());
+                handlers.push(std::thread::spawn(move || serve_limit_conn(c, no, n, hold, s2, st2)));
+            }
+        }
+        for h in handlers {
+            let _ = h.join();
+        }
+    });
+    let done = |stop: &std::sync::Arc<std::sync::atomic::AtomicBool>| stop.store(true, std::sync::atomic::Ordering::Relaxed);
+    let st = match tls_front(tls.front, Duration::from_millis(10)) {
+        Ok(s) => s,
+        Err(e) => {
+            done(&stop);
+            let _ = bt.join();
+            fails.push(Fail { class: "h2tls-h2c-transfer-failed".into(), detail: format!("tls connect: {e:?}"), case: case.clone() });
+            return case;
+        }
+    };
+    let mut cl = LedgerClient {
+        st, rx: vec![], pos: 0, enc: loona_hpack::Encoder::new(), dec: loona_hpack::Decoder::new(), peer_init: 65535, conn_avail: 65535,
+        stream_avail: BTreeMap::new(), conn_credit: 0, sent_total: 0, data_started: false, full_window: 65535, rst: BTreeMap::new(),
+        status: BTreeMap::new(), ended: Default::default(), goaway: None, settings_seen: false, settings_acked: false, closed: None, out: vec![],
+        bodies: BTreeMap::new(),
+    };
+    let mut hello = b"PRI * HTTP/2.0\r\n\r\nSM\r\n\r\n".to_vec();
+    hello.extend_from_slice(&settings_frame(&[(4, 1 << 20)]));
+    hello.extend_from_slice(&frame(8, 0, 0, &(1u32 << 24).to_be_bytes()));
+    if cl.st.write_all(&hello).and_then(|_| cl.st.flush()).is_err() {
+        done(&stop);
+        let _ = bt.join();
+        fails.push(Fail { class: "h2tls-h2c-transfer-failed".into(), detail: "write hello".into(), case: case.clone() });
+        return case;
+    }
+    let t_hs = Instant::now();
+    while !(cl.settings_seen && cl.settings_acked) && t_hs.elapsed() < Duration::from_secs(3) && !cl.over() {
+        cl.pump();
+    }
+    let t_start = Instant::now();
+    let mut sids: Vec<u32> = vec![];
+    let mut answered_at: BTreeMap<u32, Duration> = BTreeMap::new();
+    let send_request = |cl: &mut LedgerClient, idx: usize| -> u32 {
+        let sid = 1 + 2 * idx as u32;
+        let p = format!("{path}/r{idx}");
+        let body = bsl_req_body(idx, req_len + idx);
+        let cls = body.len().to_string();
+        let hs: Vec<(&[u8], &[u8])> = vec![(b":method", b"POST"), (b":scheme", b"https"), (b":path", p.as_bytes()), (b":authority", b"localhost"), (b"content-length", cls.as_bytes())];
+        let blk = cl.enc.encode(hs);
+        cl.out.extend_from_slice(&frame(1, 4, sid, &blk));
+        cl.stream_avail.insert(sid, cl.peer_init);
+        let mut off = 0usize;
+        let _ = cl.send_data(sid, &body, &mut off, true);
+        cl.flush();
+        sid
+    };
+    // first batch: as many as the backend allows on one connection; once it holds them all, the rest
+    let first = (n as usize).min(k);
+    for idx in 0..first {
+        sids.push(send_request(&mut cl, idx));
+    }
+    let t_wait = Instant::now();
+    while t_wait.elapsed() < Duration::from_millis(1500) && !cl.over() {
+        let arrived = shared.lock().map(|g| g.arrivals).unwrap_or(0);
+        if arrived >= first {
+            break;
+        }
+        cl.pump();
+    }
+    for idx in first..k {
+        sids.push(send_request(&mut cl, idx));
+    }
+    let deadline = Instant::now() + Duration::from_secs(5);
+    loop {
+        for s in &sids {
+            if (cl.ended.contains(s) || cl.rst.contains_key(s)) && !answered_at.contains_key(s) {
+                answered_at.insert(*s, t_start.elapsed());
+            }
+        }
+        if answered_at.len() == sids.len() || cl.over() || Instant::now() > deadline {
+            break;
+        }
+        cl.pump();
+    }
+    done(&stop);
+    let _ = bt.join();
+    let g = shared.lock().unwrap_or_else(|e| e.into_inner());
+    let backend = format!("backend: {} connection(s), {} requests received, at most {} streams open at once on a connection after its SETTINGS ACK ({} streams opened before an ACK), RST_STREAMs from sozu {:?}", g.connections, g.arrivals, g.max_open, g.opened_before_ack, g.rst);
+    *dist.entry(format!("backend-stream-limit:connections:{}", g.connections.min(4))).or_insert(0) += 1;
+    // (a) the peer's limit
+    if let Some(v) = g.violations.first() {
+        fails.push(Fail { class: "h2c-backend-concurrent-streams-exceeded".into(), detail: format!("{v} ({} such HEADERS); {backend}", g.violations.len()), case: case.clone() });
+    }
+    for e in g.errors.iter().take(1) {
+        fails.push(Fail { class: "h2tls-h2c-transfer-failed".into(), detail: format!("{e}; {backend}"), case: case.clone() });
+    }
+    // (b) every request is answered by the backend, (c) bodies
+    let mut refused: Vec<String> = vec![];
+    let mut other: Vec<String> = vec![];
+    for (idx, s) in sids.iter().enumerate() {
+        let status = cl.status.get(s).cloned();
+        let at = answered_at.get(s).map(|d| format!("{} ms", d.as_millis())).unwrap_or_else(|| "never".into());
+        match status.as_deref() {
+            Some("200") if cl.ended.contains(s) => {
+                cmp_body(&format!("response body of request {idx}"), cl.bodies.get(s).map(|b| &b[..]).unwrap_or(&[]), &bsl_resp_body(idx), "h2tls-h2c-response-body-differs", &case, fails);
+                match g.bodies.get(&idx) {
+                    Some(b) => cmp_body(&format!("body of request {idx} at the h2c backend"), b, &bsl_req_body(idx, req_len + idx), "h2tls-h2c-request-body-differs", &case, fails),
+                    None => other.push(format!("request {idx} (stream {s}) answered 200 but the backend never received it")),
+                }
+            }
+            Some(code @ ("503" | "502" | "504")) => refused.push(format!("request {idx} (stream {s}) answered {code} at {at}")),
+            Some(code) => other.push(format!("request {idx} (stream {s}): :status {code}, ended={} at {at}", cl.ended.contains(s))),
+            None => other.push(format!("request {idx} (stream {s}): {} at {at}", match cl.rst.get(s) {
+                Some(c) => format!("RST_STREAM({c})"),
+                None => "no answer".into(),
+            })),
+        }
+    }
+    let conn_end = match (&cl.goaway, &cl.closed) {
+        (Some((l, c)), _) => format!("; GOAWAY(last={l}, error={c})"),
+        (_, Some(c)) => format!("; {c}"),
+        _ => String::new(),
+    };
+    // a 503 for a request of the FIRST batch cannot come from a pooled connection at its limit (none
+    // exists yet): that is the open finding "503 on a fresh h2c backend connection, no request frame
+    // sent" (same symptom with an HTTP/1.1 frontend: h1-h2c-fresh-backend-connection-503); sozu then
+    // ends the session (GOAWAY), which spoils the rest of the scenario
+    let first_batch_refused = sids.iter().take(first).any(|s| matches!(cl.status.get(s).map(|x| x.as_str()), Some("503")));
+    if first_batch_refused {
+        *dist.entry("backend-stream-limit:fresh-connection-503".into()).or_insert(0) += 1;
+        fails.push(Fail {
+            class: "h1-h2c-fresh-backend-connection-503".into(),
+            detail: format!("HTTP/2 frontend variant: 503 for a request of the first batch (no pooled backend connection existed yet) although the h2c backend is up: {}; {backend}{conn_end}", refused.iter().take(3).cloned().collect::<Vec<_>>().join(", ")),
+            case: case.clone(),
+        });
+        return case;
+    }
+    if !refused.is_empty() {
+        fails.push(Fail {
+            class: "healthy-backend-request-answered-503".into(),
+            detail: format!("{} of {k} fully sent requests got an answer of sozu's making although the backend is up and serving: {}; {backend}{conn_end}", refused.len(), refused.iter().take(4).cloned().collect::<Vec<_>>().join(", ")),
+            case: case.clone(),
+        });
+    }
+    if !other.is_empty() {
+        fails.push(Fail { class: "h2tls-h2c-transfer-failed".into(), detail: format!("{} of {k} requests: {}; {backend}{conn_end}", other.len(), other.iter().take(4).cloned().collect::<Vec<_>>().join(", ")), case: case.clone() });
+    }
+    if std::env::var("E2E_BSL_TRACE").is_ok() {
+        eprintln!("{case}\n  {backend}{conn_end}\n  answered: {:?}", sids.iter().map(|s| (s, cl.status.get(s).cloned(), answered_at.get(s).map(|d| d.as_millis()))).collect::<Vec<_>>());
+    }
+    case
+}
+
 fn hpack_scenarios() -> Vec<(&'static str, Option<u32>, Vec<HpStep>)> {
     let r = |set: usize| HpStep::Request { set, body: 2, during: None };
     vec![
@@ -3342,6 +3705,9 @@ fn main() {
             Ok(mut t) => {
                 if args.prop != "C03" {
                     for (name, start, steps) in hpack_scenarios() {
+                        if family == "backend-stream-limit" || family == "rxledger" {
+                            break;
+                        }
                         let case = guarded(&mut guard, &format!("hpack-front[{name}]"), &mut fails, &mut dist, |fails, dist| case_front_hpack(&mut ctx, &mut t, name, start, &steps, fails, dist));
                         evaluations += 1;
                         if let (Some(case), true) = (case, samples.len() < 2) {
@@ -3372,6 +3738,22 @@ fn main() {
                         }
                     }
                     dist.insert("rxledger_wall_ms".into(), t_rx.elapsed().as_millis() as u64);
+                }
+                if args.prop != "C03" && (family.is_empty() || family == "backend-stream-limit") {
+                    let t_bsl = Instant::now();
+                    for (n, k) in backend_stream_limit_scenarios(100) {
+                        let case = guarded(&mut guard, &format!("backend-stream-limit[n={n},k={k}]"), &mut fails, &mut dist, |fails, dist| case_backend_stream_limit(&mut ctx, &mut t, n, k, fails, dist));
+                        evaluations += 1;
+                        if let (Some(case), true) = (case, n == 2 && k == 3) {
+                            samples.push(json!({"case": case}));
+                        }
+                    }
+                    dist.insert("backend_stream_limit_wall_ms".into(), t_bsl.elapsed().as_millis() as u64);
+                }
+                if family == "backend-stream-limit" {
+                    ctx.w.stop();
+                    finish(&args, evaluations, &dist, &samples, &mut fails, &known_witnesses, &guard, t0);
+                    return;
                 }
                 if family == "rxledger" {
                     ctx.w.stop();
@@ -3596,11 +3978,13 @@ fn finish(args: &verif_harness::Args, evaluations: u64, dist: &BTreeMap<String, 
         let setup = class == "worker-died" || class == "rig-setup" || class == "harness-inconclusive" || class == "listener-connect-failed";
         match args.prop.as_str() {
             // peer limits and liveness
-            "C14" => setup || class.starts_with("h2c-") || class.starts_with("h2-front-") || class.starts_with("h2tls-h1-response-stalled") || (class.starts_with("h1-h2c-") && class != "h1-h2c-keepalive-second-request-502") || class == "h2front-response-stalled" || class == "h2-frame-sync-lost-mid-data" || class == "body-corrupted-under-backpressure" || class.starts_with("hpack-"),
+            "C14" => setup || class.starts_with("h2c-") || class.starts_with("h2-front-") || class.starts_with("h2tls-h1-response-stalled") || (class.starts_with("h1-h2c-") && class != "h1-h2c-keepalive-second-request-502") || class == "h2front-response-stalled" || class == "h2-frame-sync-lost-mid-data" || class == "body-corrupted-under-backpressure" || class.starts_with("hpack-") || class == "healthy-backend-request-answered-503",
             // request boundaries at the backend
             "C03" => setup || class.starts_with("h2-h1-") || class.starts_with("c03-"),
+            // C02 runs the backend-stream-limit family only: a fully received request answered by sozu instead of the healthy backend
+            "C02" => setup || class == "healthy-backend-request-answered-503",
             // C01: byte-exactness and clean ends; the window-ledger classes are C14's, the trailer classes C03's
-            _ => !class.starts_with("h2c-") && !class.starts_with("h2-front-") && !class.starts_with("c03-") && !class.starts_with("hpack-size-update"),
+            _ => !class.starts_with("h2c-") && !class.starts_with("h2-front-") && !class.starts_with("c03-") && !class.starts_with("hpack-size-update") && class != "healthy-backend-request-answered-503",
         }
     };
     for f in fails.iter().filter(|f| relevant(&f.class)) {
